@@ -8,7 +8,7 @@ import (
 	"sort"
 	"strconv"
 
-	_ "google.golang.org/protobuf/verif/checks"
+	"google.golang.org/protobuf/verif/checks"
 	"google.golang.org/protobuf/verif/core"
 )
 
@@ -39,6 +39,8 @@ func main() {
 		for _, c := range l {
 			fmt.Println(c)
 		}
+	case "c19child":
+		os.Exit(checks.C19Child(os.Args[2]))
 	case "driver":
 		replay := ""
 		if len(os.Args) >= 6 && os.Args[4] == "--replay" {
